@@ -92,29 +92,33 @@ def make_cases(tier, table, meshes):
         fam, dim, mode, k = m["fam"], m["dim"], m["mode"], m["k"]
         for ti, t in enumerate(els.get((fam, dim), [])):
             heavy = t["nloc"] >= 10        # Lagrange-2 in 3D
-            if tier == "quick":
-                if dim == 3 and mode == "pair":
-                    stride = 8 if (heavy and fam == "hypercube") else (4 if heavy or fam == "hypercube" else 2)
-                    if (k + ti) % stride != 0:
-                        continue
-                if dim == 3 and mode == "single" and (k + ti) % 3 != 0:
+            if tier == "quick" and dim == 3:
+                # 3D gluings / rotations are sub-sampled in the quick tier (all of them in the thorough tier)
+                stride = {"pair": (24 if fam == "hypercube" else 8) if heavy else (12 if fam == "hypercube" else 6), "single": 6 if heavy else 3}[mode]
+                if (k + ti) % stride != 0:
                     continue
             perm = PERMS[(k + 3 * ti) % len(PERMS)]
             add(m, t, perm, cubv=(k // 3) % 2 if tier == "thorough" else 0)
-    # structured meshes: every strategy for every family
+    # structured meshes: the permutation strategies for every family
     for fam, dim in SHAPES:
-        facs = [("unitcube1", {"fac": "unitcube", "level": 1})]
-        if dim == 2 or tier == "thorough":
-            facs.append(("struct", {"fac": "struct", "nx": 3, "ny": 2, "nz": 1 if tier == "quick" else 2}))
+        lvl = 0 if (fam == "simplex" and dim == 3) else 1       # 24 tetrahedra / 8 hexahedra / 4 quadrilaterals / 16 triangles
+        facs = [("unitcube%d" % lvl, {"fac": "unitcube", "level": lvl})]
+        if tier == "thorough":
+            facs.append(("struct", {"fac": "struct", "nx": 3, "ny": 2, "nz": 2}))
         if dim == 2:
             facs.append(("star", {"fac": "star"}))
-        for nm, src in facs:
-            for t in els.get((fam, dim), []):
+        for fi, (nm, src) in enumerate(facs):
+            for ti, t in enumerate(els.get((fam, dim), [])):
                 heavy = t["nloc"] >= 10
-                if heavy and fam == "simplex" and nm == "unitcube1" and tier == "quick":
-                    continue       # 192 tetrahedra x P2: thorough only
-                perms = PERMS if (tier == "thorough" or dim == 2) else PERMS[::3] + ["colored"]
-                if heavy and tier == "quick":
+                if tier == "thorough":
+                    perms = PERMS
+                elif dim == 2 and fi == 0:
+                    perms = PERMS
+                elif dim == 2:
+                    perms = [PERMS[(2 * ti) % 8], PERMS[(2 * ti + 5) % 8]]
+                elif heavy:
+                    perms = ["none", PERMS[1 + ti % 7]]
+                else:
                     perms = ["none", "random", "colored", "gcmk_rev"]
                 for pi, perm in enumerate(perms):
                     add({"fam": fam, "dim": dim, "src": src, "srcname": "factory:" + nm, "k": pi}, t, perm, cubv=pi % 2 if tier == "thorough" else 0)
